@@ -89,6 +89,12 @@ def generate(seed, tier):
         fsz = weighted(w, [(longest, 3), (longest + w.randint(1, 200), 3), (max(longest, sg + w.randint(1, 500)), 2)])
         modes.append({'mp': True, 'name': f'T{t}', 'api': 'tiling', 'width': s.randint(1, 8), 'schedule': {'policy': 'seeded'}, 'seed': seed + f'T{t}', 'isolation': s.choice(['inproc', 'fork']),
                       'tiling': {'bp_per_segment': sg, 'bp_per_job': sg * w.randint(1, 20), 'fragment_size': fsz, 'job_bed': s.choice([None, None, 'plain', 'gz'])}})
+    if len(genome) >= 2 and s.random() < 0.25:
+        # every execution restricted to ONE contig (-contig) whose name contains the name of another contig with reads
+        nested = ['ctg1', 'ctg10', 'ctg101', 'ctg2']
+        for i in range(len(genome)):
+            genome[i][0] = nested[i]
+        params['contig'] = 'ctg10'
     if s.random() < 0.4:
         # the tiling once more under a per-segment time limit, with a clock that stalls once: the segment caught by the stall is dropped and must be
         # REPORTED in the output header; everything outside reported segments must still equal the serial pass
